@@ -56,7 +56,7 @@ def _unabs(ctx, s):
     return [s]
 
 
-def _prove_ratio(ctx, name, s, num, den):
+def _prove_ratio(ctx, name, s, num, den, big=False):
     """s == num/den with s possibly an |.| atom; num, den >= 0 by form"""
     # cheap route: the quotient built by the harness has the same normal
     # form (same inverse atom, memoised on the denominator polynomial)
@@ -68,9 +68,16 @@ def _prove_ratio(ctx, name, s, num, den):
             return ctx.record(name, 'unsat', 'normal-form')
     last = None
     for x in _unabs(ctx, s):
+        if not big and len(x.p.t) * max(1, len(den.p.t)) > 150000:
+            # the cleared polynomial would be too large for the prover:
+            # candidate only, decided by the numeric replay
+            return ctx.record(name, 'sat', 'too-large-for-lra',
+                              candidate=True, model={})
         n_before = len(ctx.obligations)
         rec = prove_zero(ctx, name, x * den - num, rounds=2,
-                         fallback_exact=False)
+                         fallback_exact=False,
+                         max_goal_terms=200000 if big else 20000,
+                         inst_budget_s=600.0 if big else 20.0)
         if rec['status'] == 'unsat':
             return rec
         # drop the failed attempt, try the other sign
@@ -222,7 +229,7 @@ class ChannelSinr(Harness, _Sizes):
                     if (j, m) != (0, l):
                         den = den + _quad(u, C.mm(Hkl(0, j), _col(F[j], m)))
             _prove_ratio(ctx, 'rescaled-filter-same-sinr[%d]' % l,
-                         sinr2[0][l], num, den)
+                         sinr2[0][l], num, den, big=bool(cfg.get('rescale')))
         return self._rest(ctx, cfg, ch, F, U, nv, nvv, Hkl, sinr)
 
     def _rest(self, ctx, cfg, ch, F, U, nv, nvv, Hkl, sinr):
@@ -372,6 +379,11 @@ class IaSinr(Harness, _Sizes):
             for pl in (False, True):
                 for noise in ('sym', None):
                     out.append(dict(s, pathloss=pl, noise=noise))
+        # precoders handed over as full (power-scaled) matrices: the power
+        # lives in full_F only, P stays at its default / is backed off
+        s0 = self.sizes('quick')[0]
+        out.append(dict(s0, pathloss=False, noise='sym', mode='full_F'))
+        out.append(dict(s0, pathloss=True, noise='sym', mode='F+full_F+P'))
         return out
 
     def sym(self, ctx, cfg):
@@ -382,7 +394,16 @@ class IaSinr(Harness, _Sizes):
         K, Ns = cfg['K'], cfg['Ns']
         sol = iab.IASolverBaseClass(ch)
         P = sym_array(ctx, 'P', K, positive=True)
-        sol.set_precoders(F=F, P=P)
+        mode = cfg.get('mode', 'F+P')
+        if mode == 'F+P':
+            sol.set_precoders(F=F, P=P)
+        elif mode == 'full_F':
+            sol.set_precoders(full_F=F)
+        else:
+            back = np.empty(K, dtype=object)
+            for k in range(K):
+                back[k] = F[k] * ctx.real('backoff%d' % k, lo=0, hi=1)
+            sol.set_precoders(F=F, full_F=back, P=P)
         sol.set_receive_filters(W=U)
         sinr = sol.calc_SINR()
         nvv = nv if nv is not None else 0
@@ -413,10 +434,11 @@ class IaSinr(Harness, _Sizes):
                        [sinr[k][l] - s2[k][l] for l in range(Ns[k])],
                        fallback_exact=False)
             # power scaling and filter scaling
-            g = P[k].sqrt()
-            prove_zero(ctx, 'full_F[%d]=F*sqrt(P)' % k,
-                       C.as_cmat(fullF[k]) - C.as_cmat(F[k]) * C._c(g),
-                       fallback_exact=False)
+            if mode == 'F+P':
+                g = P[k].sqrt()
+                prove_zero(ctx, 'full_F[%d]=F*sqrt(P)' % k,
+                           C.as_cmat(fullF[k]) - C.as_cmat(F[k]) * C._c(g),
+                           fallback_exact=False)
             eq = C.mm(C.as_cmat(fullWH[k]), Hkl(k, k), C.as_cmat(fullF[k]))
             prove_zero(ctx, 'full_W_H[%d] H full_F = I' % k,
                        eq - C.eye(Ns[k]), fallback_exact=False)
@@ -443,12 +465,19 @@ class IaSinr(Harness, _Sizes):
         K, Ns = cfg['K'], cfg['Ns']
         sol = iab.IASolverBaseClass(ch)
         P = np.array([rng.uniform(0.2, 3) for _ in range(K)])
-        sol.set_precoders(F=F, P=P)
+        mode = cfg.get('mode', 'F+P')
+        if mode == 'F+P':
+            sol.set_precoders(F=F, P=P)
+        elif mode == 'full_F':
+            sol.set_precoders(full_F=F)
+        else:
+            back = np.empty(K, dtype=object)
+            for k in range(K):
+                back[k] = F[k] * rng.uniform(0.2, 1)
+            sol.set_precoders(F=F, full_F=back, P=P)
         sol.set_receive_filters(W=U)
         s1 = sol.calc_SINR()
-        fullF = np.empty(K, dtype=object)
-        for k in range(K):
-            fullF[k] = F[k] * np.sqrt(P[k])
+        fullF = sol.full_F
         s2 = ch.calc_SINR(fullF, U)
         bad = []
         for k in range(K):
